@@ -197,12 +197,30 @@ def q_truncate(eng, st, fr, t, name, rname, args):
     return fdai.UNIT
 
 
+def q_as_slice(eng, st, fr, t, name, rname, args):
+    """ArrayVec / Vec -> its element slice (same abstract list)"""
+    q = _q(eng, st, args[0])
+    if q is None:
+        return NotImplemented
+    v = eng.resolve(st, args[0])
+    cur = v
+    while isinstance(cur, RefV):
+        inner = eng.resolve(st, load(Loc(cur.cell, cur.path)))
+        if isinstance(inner, fdai.ListV):
+            return RefV(cur.cell, cur.path, True)
+        cur = inner
+    return NotImplemented
+
+
 def container_models():
     ms = M.with_lists(M.FOLD_MODELS)
+    ms["core::ops::Deref::deref"] = M._or(q_as_slice, ms.get("core::ops::Deref::deref"))
+    ms["core::ops::DerefMut::deref_mut"] = M._or(q_as_slice, ms.get("core::ops::DerefMut::deref_mut"))
     for pre in ("arrayvec::ArrayVec::", "alloc::vec::Vec::"):
         ms.update({
             pre + "try_push": q_try_push, pre + "push": q_push, pre + "pop": q_pop, pre + "pop_at": q_pop_at, pre + "remove": q_remove,
             pre + "swap_remove": q_swap_remove, pre + "swap_pop": q_swap_pop, pre + "insert": q_insert, pre + "len": q_len, pre + "is_empty": q_is_empty,
+            pre + "as_slice": q_as_slice, pre + "as_mut_slice": q_as_slice,
             pre + "is_full": q_is_full, pre + "capacity": q_capacity, pre + "remaining_capacity": q_remaining, pre + "clear": q_clear, pre + "truncate": q_truncate,
         })
     return ms
